@@ -206,6 +206,8 @@ def semantic_check(pid):
                 n = max(a, 0)
                 return {'dig': (n + 1, n + 2), 'cover': (n + 1, n + 1), 'uncover': (n + 1, n + 1), 'bury': (n + 1, n), 'popn': (n, 0), 'dupn': (1, n + 1),
                         'frame_dig': (0, 1), 'frame_bury': (1, 0), 'pushints': (0, n), 'pushbytess': (0, n), 'switch': (1, 0), 'match': (n + 1, 0), 'proto': (0, 0)}.get(op)
+            _lines, _fam, _ctl = extract.sample_lines()
+            base_of_variant = {v: (_lines + _ctl)[i] for v, i in extract.immediate_variants(_lines + _ctl)}
             for (g, l, cls, txt, po, pu, ver, mode) in rows:
                 if g == 'family':
                     w = l.split(); op = w[0]
@@ -220,6 +222,11 @@ def semantic_check(pid):
                     if fam_spec(op, a) != (po, pu):
                         cx.violations.append({'kind': 'stack-effect', 'program': l, 'prop': 'C11', 'field': 'effect', 'where': l,
                                               'detail': f"`{l}` is declared pop {po} / push {pu}; the AVM effect is pop {fam_spec(op, a)[0]} / push {fam_spec(op, a)[1]}", 'src': l, 'env': None})
+                elif g == 'variant':
+                    base = base_of_variant.get(l)
+                    if base in spec_rows and spec_rows[base] != (cls, po, pu, ver, mode):
+                        cx.violations.append({'kind': 'stack-effect', 'program': l, 'prop': 'C11', 'field': 'effect', 'where': l,
+                                              'detail': f"`{l}` parses to class/pops/pushes/version/mode {(cls, po, pu, ver, mode)}, but `{base}` - the same opcode with another immediate value - has {spec_rows[base]} in the specification table (the effect of this opcode does not depend on the value of its immediate)", 'src': l, 'env': None})
                 elif l in spec_rows and spec_rows[l] != (cls, po, pu, ver, mode):
                     cx.violations.append({'kind': 'stack-effect', 'program': l, 'prop': 'C11', 'field': 'effect', 'where': l,
                                           'detail': f"`{l}` parses to class/pops/pushes/version/mode {(cls, po, pu, ver, mode)}; the specification table has {spec_rows[l]}", 'src': l, 'env': None})
